@@ -83,6 +83,13 @@ func runC34(c *core.Ctx) error {
 	if err := runCorpusTL1(c, "C34", cp, 1, 0, 0, 0, 0, 0); err != nil {
 		return err
 	}
+	// the primitives only TL2 has (uint64, byte, bool as a value, int64 under its own name)
+	extraVals = map[string][][]int{"uint64": i64, "int64": i64, "int32": i32, "uint32": i32, "float32": f32, "float64": f64,
+		"byte": {{0x7f}, {0x80}, {0x0a}, {0x22}}}
+	cp2 := Corpus{Name: "prims2", Files: []string{probe("prims2.tl2")}, TL2: "*", Sanity: true, BytesVers: "*"}
+	if err := runCorpusTL1(c, "C34", cp2, 1, 0, 0, 0, 0, 0); err != nil {
+		return err
+	}
 	c.Set("string_values", len(strs))
 	c.Set("rule", "one TLC state per (primitive type, value): all byte-class strings of length <= 2, lead-byte triples and 4-byte forms (UTF-8 boundaries, escapes, controls, U+2028/9), integer boundaries, float classes; written JSON must be valid, equal the spec tree (text or base64 object, numbers bit-exact, NaN/Inf strings) and read back to the same TL1/TL2/JSON; string and []byte variants")
 	c.Assume("JSON validity and string decoding are judged by Go's encoding/json; the readers are the generated Json2Read* helpers reached through the generated objects")
